@@ -14,7 +14,8 @@ compared on its own being wrong:
    later calls (4 points, parameter re-assignment, second instance, deep copy) - returned-array aliasing; ODE = V.a + pure
    is checked on the kept arrays; afterwards the caller overwrites the arrays it was given and evaluates again;
  * x as list / tuple / ndarray, float and (integer-valued point, some states exactly 0) int / int32 / int64; t as float /
-   int / numpy scalar; parameters as list / tuple / ndarray / dict / (name, value) pairs; arguments checked unmodified;
+   int / numpy scalar; parameters as list / tuple / ndarray / dict / (name, value) pairs (an argument that was written to is a
+   pure side effect: tagged `side-effect:*`, never a violation - only wrong returned values are);
  * same (x, t) after `model.parameters` was re-assigned, and again after the first values were restored;
  * a second live instance under the same names (state declaration reversed, parameter declaration permuted, derived
    parameter redefined, last event entered incrementally), built IN STAGES - constructor, all evaluators called, then one
@@ -312,8 +313,8 @@ class Session(object):
                 self.cur = {p: env[p] for p in params}
                 tags.append("p:" + form["p"])
                 if freeze(th) != fth:
-                    viol.append({"what": self.who + "the object assigned to model.parameters was modified", "signature": "input-modified:parameters:" + form["p"],
-                                 "detail": json.dumps(pt)})
+                    # a pure side effect (the values judged below decide): tagged, not a violation of this property
+                    tags.append("side-effect:parameters-object-modified:" + form["p"])
             vals = {}
             vals["ode"] = self.kept.call(model, "ode", x, t, label).ravel()
             vals["vMat"] = self.kept.call(model, "vMat", x, t, label).reshape(nS, nE) if nE > 0 else np.zeros((nS, 0))
@@ -427,8 +428,8 @@ class Session(object):
             return
         nS, nE = self.nS, self.nE
         for label, name in self.kept.input_changed:
-            self.viol.append({"what": self.who + "[%s] %s(x,t) modified the state vector / time it was given" % (label, name),
-                              "signature": "input-modified:%s" % name, "detail": ""})
+            # writing into the caller's state vector / time is a side effect outside this property: tagged only
+            self.tags.append("side-effect:input-modified:%s" % name)
         changed = self.kept.changed()
         if changed:
             self.tags.append("kept_result_changed")
@@ -444,11 +445,9 @@ class Session(object):
             if self.viol:
                 break
         if changed and not self.viol:
-            # a kept result changed but still satisfies the oracle within tolerance (cannot happen by rounding: the
-            # comparison with the private copy is exact) - report it, it is the same failure
-            label, name, now, was = changed[0]
-            self.viol.append({"what": self.who + "[%s] the array returned by %s(x,t) was changed by a later call" % (label, name),
-                              "signature": "kept:%s:array-overwritten" % name, "detail": "now %s, at the time of the call %s" % (now.tolist(), was.tolist())})
+            # a kept array was written to by a later call but every kept value still satisfies the oracle: a side effect
+            # (a view of internal state) without a wrong value - tagged, not judged
+            self.tags.append("side-effect:kept-array-rewritten-with-right-values")
         self.tags.append("kept_judged:%d" % len(self.steps))
 
     def after_scribble(self, env, form, label):
